@@ -153,6 +153,10 @@ def conclude(prop, tier, seed, meta, shards, results, t0, write_evidence=True):
         if res is None:
             if timed_out:
                 inconclusive.append("%s: watchdog fired after %.0fs" % (label, wall))
+            elif rc == -9:
+                # SIGKILL never comes from the code under test (a wild access gives SIGSEGV/SIGBUS, an abort SIGABRT):
+                # it is the kernel's out-of-memory killer or an outside kill - no verdict, never a violation
+                inconclusive.append("%s: worker was killed (SIGKILL: out-of-memory killer or external kill), no verdict" % label)
             elif inflight is not None and s.get("crash_is_violation"):
                 violations.append({"shard_index": i, "key": "crash:rc=%s" % rc,
                                    "message": "worker died (rc=%s) while executing a library call\n%s"
@@ -299,6 +303,9 @@ def do_replay(prop, path, shadow, work):
     env = shadow(variant).env(rp.get("shard", {}).get("env"))
     rc, _, wall, timed_out = run_worker(["replay", prop, os.path.abspath(path), out], env, 3600, err)
     if not os.path.exists(out):
+        if rc == -9:
+            print("INCONCLUSIVE property=%s reason=replay worker was killed (SIGKILL: out-of-memory killer or external kill)" % prop)
+            return 2
         if rp.get("shard", {}).get("crash_is_violation") and os.path.exists(out + ".inflight"):
             print("VIOLATION property=%s replay=%s" % (prop, path))
             print("  worker died again rc=%s\n%s" % (rc, tail(err, 1500)))
